@@ -107,32 +107,16 @@ def r2_kill(report, repo, rule='C12-R2'):
   ar = lib.nodes_with_call(g, name='self.async_raise')
   report.expect_instances(rule, len(ar), 1, 'async_raise calls')
   for n, c in ar:
-    for nm in ('self.is_alive', 'self._is_thread_proc_running'):
-      ok = g.dominated_by_edge(
-          n, lambda s, l, d, _nm=nm: s.kind == 'test' and l == 'T' and
-          call_name(s.ast) == _nm)
-      report.check(ok, rule, f.qualname, 'raise-guard:' + nm, c,
-                   'asynchronous raise only when %s() is true' % nm,
-                   'kill() raises asynchronously without %s() being true: the '
-                   'exception can hit the exception/finish handlers or a '
-                   'finished thread' % nm)
     report.check(ends_with(dotted(c.args[0]) if c.args else '',
                            'ThreadTerminationError'), rule, f.qualname,
                  'raises-termination-error', c,
                  'the raised type is ThreadTerminationError')
-  p = repo.func(TH, 'KillableThread._is_thread_proc_running')
-
-  def classify(expr, steps):
-    if isinstance(expr, ast.Name):
-      return None
-    if call_name(expr) == LOCK + '.acquire':
-      return 'acquired'
-    return None
-
-  acq = core.calls_in(p.node, name=LOCK + '.acquire')
+  # decision table over {thread alive, running lock obtained by the probe}
+  # (the probe helper, if there is one, is inlined by the loader)
+  acq = core.calls_in(f.node, name=LOCK + '.acquire')
   ok = len(acq) == 1 and acq[0].args and isinstance(
       acq[0].args[0], ast.Constant) and acq[0].args[0].value is False
-  report.check(bool(ok), rule, p.qualname, 'non-blocking', p.node,
+  report.check(bool(ok), rule, f.qualname, 'non-blocking', f.node,
                'the probe acquires the running lock without blocking',
                'the running-lock probe blocks: kill() waits for the body to '
                'finish instead of interrupting it')
@@ -142,29 +126,41 @@ def r2_kill(report, repo, rule='C12-R2'):
       v = cfgm.Path(steps, None).value_of(expr.id)
       if v is not None and call_name(v) == LOCK + '.acquire':
         return 'acquired'
+      return None
     if call_name(expr) == LOCK + '.acquire':
       return 'acquired'
+    if call_name(expr) == 'self.is_alive':
+      return 'alive'
     return None
 
   def spec(v, p_):
     if p_.end != 'exit':
       return None
     rel = p_.calls(name=LOCK + '.release')
-    r = p_.last_return().value
-    val = r.value if isinstance(r, ast.Constant) else None
+    raises = p_.calls(name='self.async_raise')
+    probes = p_.calls(name=LOCK + '.acquire')
+    if not v['alive']:
+      if raises:
+        return 'raise-guard:self.is_alive: asynchronous raise for a thread ' \
+            'that is not alive'
+      return None
+    if not probes:
+      return 'raise-guard:probe: the running lock is not probed'
     if v['acquired']:
       if len(rel) != 1:
         return 'acquired-row: the probe must release the lock it obtained'
-      if val is not False:
-        return 'acquired-row: lock free means the body is NOT running'
+      if raises:
+        return ('raise-guard:body-running: asynchronous raise although the '
+                'running lock was free (the body is not running: the '
+                'exception would hit the exception/finish handlers)')
     else:
       if rel:
         return 'busy-row: must not release a lock it does not hold'
-      if val is not True:
-        return 'busy-row: lock busy means the body IS running'
+      if len(raises) != 1:
+        return 'busy-row: a running body must be interrupted exactly once'
     return None
 
-  lib.decision_table(report, rule, p, ['acquired'], classify2, spec)
+  lib.decision_table(report, rule, f, ['alive', 'acquired'], classify2, spec)
   a = repo.func(TH, 'KillableThread.async_raise')
   cs = [c for c in core.calls_in(a.node)
         if last_attr(c) == 'PyThreadState_SetAsyncExc']
